@@ -523,7 +523,8 @@ class vDDDTypes(TimeBase):
         elif isinstance(dt, timedelta):
             return vDuration(dt).to_ical()
         elif isinstance(dt, time):
-            return vTime(dt).to_ical()
+            # vTime.to_ical() returns str, all the other types return bytes
+            return from_unicode(vTime(dt).to_ical())
         elif isinstance(dt, tuple) and len(dt) == 2:
             return vPeriod(dt).to_ical()
         else:
